@@ -404,7 +404,28 @@ func (s *sys) Canon() string {
 	if s.tx != nil {
 		c += " TX{" + s.txm.canon() + "}"
 	}
-	return c
+	// digest of the real tables: paths are merged only if the implementation state agrees too
+	return c + " real:" + s.rawDigest(nil) + "|" + s.rawDigest(s.tx)
+}
+
+func (s *sys) rawDigest(tx gorp.Tx) string {
+	if tx == nil && s.tx == nil {
+		tx = nil
+	}
+	h := gorp.OverrideTx(s.db, tx)
+	var rels []ontology.Relationship
+	_ = gorp.NewRetrieve[string, ontology.Relationship]().Entries(&rels).Exec(ctx, h)
+	var ress []ontology.Resource
+	_ = gorp.NewRetrieve[string, ontology.Resource]().Entries(&ress).Exec(ctx, h)
+	var out []string
+	for _, r := range rels {
+		out = append(out, r.GorpKey())
+	}
+	for _, r := range ress {
+		out = append(out, r.ID.String())
+	}
+	sort.Strings(out)
+	return strings.Join(out, ",")
 }
 
 func idStrs(rs []ontology.Resource) []string {
